@@ -10,7 +10,7 @@
    [unseen ieqb old l] keeps the columns of l whose identity no column of [old] has;
    [subseq a b]: a is b with elements left out, order kept;  [pops k o]: o is pop_column on schema k. *)
 From Coq Require Import List ZArith Bool.
-From Orso Require Import Model.C17 Proofs.C17.
+From Orso Require Import Model.C17 Proofs.C17 Proofs.C17_Iter.
 Import ListNotations.
 
 (* ---------------- union ---------------- *)
@@ -284,6 +284,100 @@ Theorem C17_pop_in_history :
 Proof. exact pop_in_history. Qed.
 Print Assumptions C17_pop_in_history.
 
+(* ---------------- iteration interleaved with removals (round 2) ---------------- *)
+(* Histories with open iterators: [hstep] / [hrun] of Model/C17.v - HOp o is a plain call, HOpen i is
+   `it = iter(store[i])` (the iterator gets the next free number), HNext k is `next(it_k)`.
+   Vocabulary (Proofs/C17_Iter.v): [plain hops] = the plain calls of hops; [select f hops xs] = the
+   entries of the per-call list xs at the calls satisfying f; [is_next k] = "is next(it_k)";
+   [expected_nexts l m] = what m successive next() calls return on an iterator that still has the
+   names l to yield: the names of l in order, then StopIteration for ever;
+   [loop_hops pred i k names] = for each n of names: next(it_k), then store[i].pop_column(n) if pred n. *)
+
+(* Iteration lists the columns present when it was opened: iter(store[i]) consumes nothing and changes
+   no schema, and over EVERY later history - removals on store[i] itself, sums, lookups, other iterators
+   opened and advanced in between - the successive next() calls on it return the column names store[i]
+   had at that moment, each once, in positional order, then StopIteration. *)
+Theorem C17_iterator_snapshot :
+  forall (I T P : Type) (ieqb : I -> I -> bool) (teqb : T -> T -> bool) (lower : T -> T)
+         (st : list (schema I T P)) (its : iters T) (i : nat) (s : schema I T P) (hops : list (hop T)),
+  nth_error st i = Some s ->
+  hstep ieqb teqb lower (st, its) (HOpen i) = ((st, its ++ [column_names s]), XOpened) /\
+  map fst (select (is_next (length its)) hops (snd (hrun ieqb teqb lower (st, its ++ [column_names s]) hops))) =
+    expected_nexts (column_names s) (length (filter (is_next (length its)) hops)).
+Proof. exact open_iterator_snapshot. Qed.
+Print Assumptions C17_iterator_snapshot.
+
+(* The same for an iterator at any point of its life (remaining names l), and one call at a time: next()
+   on it yields the head of l and leaves the tail (StopIteration on the empty list, which stays empty);
+   every other call leaves it exactly as it is. *)
+Theorem C17_iterator_steps :
+  forall (I T P : Type) (ieqb : I -> I -> bool) (teqb : T -> T -> bool) (lower : T -> T)
+         (st : list (schema I T P)) (its : iters T) (k : nat) (l : list T),
+  nth_error its k = Some l ->
+  (forall h : hop T,
+     if is_next k h
+     then match l with
+          | n :: r => snd (hstep ieqb teqb lower (st, its) h) = XItem n /\
+                      nth_error (snd (fst (hstep ieqb teqb lower (st, its) h))) k = Some r
+          | [] => snd (hstep ieqb teqb lower (st, its) h) = XStop /\
+                  nth_error (snd (fst (hstep ieqb teqb lower (st, its) h))) k = Some []
+          end
+     else nth_error (snd (fst (hstep ieqb teqb lower (st, its) h))) k = Some l) /\
+  (forall hops : list (hop T),
+     map fst (select (is_next k) hops (snd (hrun ieqb teqb lower (st, its) hops))) =
+       expected_nexts l (length (filter (is_next k) hops))).
+Proof.
+  intros I T P ieqb teqb lower st its k l H. split.
+  - intros h. apply hstep_iterator. exact H.
+  - intros hops. apply iterator_yields. exact H.
+Qed.
+Print Assumptions C17_iterator_steps.
+
+(* Opening and advancing iterators modifies no schema: the schemas after a history with iterators are
+   those after its plain calls alone, and the plain calls return (and leave in every schema) what they
+   do without the iterators - so C17_operands_unchanged, C17_history_frame and C17_pop_in_history hold
+   verbatim for histories with iterators. *)
+Theorem C17_iterators_leave_schemas :
+  forall (I T P : Type) (ieqb : I -> I -> bool) (teqb : T -> T -> bool) (lower : T -> T)
+         (hops : list (hop T)) (st : list (schema I T P)) (its : iters T),
+  fst (fst (hrun ieqb teqb lower (st, its) hops)) = fst (run ieqb teqb lower st (plain hops)) /\
+  select is_plain hops (snd (hrun ieqb teqb lower (st, its) hops)) = snd (run ieqb teqb lower st (plain hops)).
+Proof. exact hrun_store. Qed.
+Print Assumptions C17_iterators_leave_schemas.
+
+(* Iteration agrees with removal by name: `for n in s: if pred(n): s.pop_column(n)` removes exactly the
+   columns whose name pred selects - every one of them, also adjacent ones and repeated names - and
+   keeps the others in order with the schema's name and aliases; with pred = always it empties s. *)
+Theorem C17_remove_while_iterating_fn :
+  forall (I T P : Type) (teqb : T -> T -> bool),
+  (forall a b : T, teqb a b = true <-> a = b) ->
+  forall (pred : T -> bool) (s : schema I T P),
+  drop_loop teqb pred s = mksch (sname s) (saliases s) (filter (fun c => negb (pred (cname c))) (scols s)) /\
+  scols (drop_loop teqb (fun _ => true) s) = [].
+Proof.
+  intros I T P teqb H pred s. split; [apply drop_loop_filter; exact H | apply drain_empties; exact H].
+Qed.
+Print Assumptions C17_remove_while_iterating_fn.
+
+(* ... and as the history the correspondence runs: open an iterator on store[i], for each name it yields
+   remove it when pred selects it, then call next() once more.  The iterator yields every column name
+   store[i] had when the loop started, in positional order, then StopIteration - although columns were
+   removed under it - and afterwards store[i] holds exactly the columns pred does not select; all other
+   schemas are as before. *)
+Theorem C17_remove_while_iterating :
+  forall (I T P : Type) (ieqb : I -> I -> bool) (teqb : T -> T -> bool) (lower : T -> T),
+  (forall a b : T, teqb a b = true <-> a = b) ->
+  forall (pred : T -> bool) (st : list (schema I T P)) (its : iters T) (i : nat) (s : schema I T P),
+  nth_error st i = Some s ->
+  let k := length its in
+  let hops := HOpen i :: loop_hops pred i k (column_names s) ++ [HNext k] in
+  fst (fst (hrun ieqb teqb lower (st, its) hops)) =
+    set_nth st i (mksch (sname s) (saliases s) (filter (fun c => negb (pred (cname c))) (scols s))) /\
+  map fst (select (is_next k) hops (snd (hrun ieqb teqb lower (st, its) hops))) =
+    map (fun n => XItem n) (column_names s) ++ [XStop].
+Proof. exact remove_while_iterating. Qed.
+Print Assumptions C17_remove_while_iterating.
+
 (* ---------------- non-vacuity ---------------- *)
 
 (* The equality premises are satisfiable: the comparison used by the correspondence is one. *)
@@ -335,3 +429,18 @@ Example C17_nonvacuous_history :
   tags_of (fst (run text_eqb text_eqb ascii_lower ([ex_l; ex_rt] ++ [add text_eqb ex_l ex_rt]) ops))
     = [[1; 2]; [4; 4; 5; 6]; [2; 4]; [2; 4; 1]]%N.
 Proof. repeat split; vm_compute; reflexivity. Qed.
+
+(* Iterator hypotheses are satisfiable: on l + r = [1(a) 2(a) 4(b)] open an iterator, take one name,
+   remove "a" (the column just yielded) and then "b" (a column not yet reached): the iterator still
+   yields a, a, b and then stops, while the schema is left with column 2 only; a second iterator opened
+   after the removals sees just that column. *)
+Example C17_nonvacuous_iterator :
+  let hops := [HOpen 2; HNext 0; HOp (OPop 2 ex_a); HNext 0; HOp (OPop 2 ex_b); HOpen 2; HNext 0; HNext 1;
+               HNext 0; HNext 1; HOp (ONames 2)] in
+  let r := hrun text_eqb text_eqb ascii_lower ([ex_l; ex_rt; add text_eqb ex_l ex_rt], []) hops in
+  map fst (snd r) =
+    [XOpened; XItem ex_a; XCol (Some 1%N); XItem ex_a; XCol (Some 4%N); XOpened; XItem ex_b; XItem ex_a;
+     XStop; XStop; XNames [ex_a]] /\
+  tags_of (fst (fst r)) = [[1; 2]; [3; 4; 4; 5; 6]; [2]]%N /\
+  map ctag (scols (drop_loop text_eqb (fun n => text_eqb n ex_b) ex_rt)) = [5%N].
+Proof. cbv zeta. split; [vm_compute; reflexivity|]. split; vm_compute; reflexivity. Qed.
